@@ -145,6 +145,15 @@ CHECKS.update({
             SYMNOTE + "joblib preserves order.", "DESIGN.md §4 C11"),
 })
 
+CHECKS.update({
+    "C18": (True, "inter-procedural effect analysis (transform is read-only), call-wiring rule for fit_transform, and "
+                  "history-dependence analysis by symbolically executing two successive fits on different generic data",
+            CLAUSE + "Decides TF-RO, TF-FT, TF-ORDER, TF-HIST. The landscaper latches start/stop across fits: genuine defect "
+            "kept as known findings K2-start/K2-stop (a latch on any other attribute is still reported). Declines: numerical "
+            "equality of outputs across calls.",
+            SYMNOTE + "scikit-learn's TransformerMixin.fit_transform is fit(X).transform(X).", "DESIGN.md §4 C18, §5 K2"),
+})
+
 NOT_APPLICABLE = {
     "C05": "soundness of the mGH lower/upper bounds is a theorem about computed values for every graph pair and RNG "
            "draw; no ownership, ordering, wiring or algebraic-type argument implies it (DESIGN.md §6); nearby "
